@@ -274,7 +274,9 @@ func c16Judge(w *rqWorld, res *vsched.Result, updaters []string, requests []stri
 				}
 			}
 			if !overl {
-				bad = append(bad, vScnBad{"retry-later-without-overlapping-update", fmt.Sprintf("%s was answered JUKEBOX although no update overlapped it\n  trace: %s", rq, w.trace())})
+				// not a clause of the property (it only says that mid-drain requests get a retry-later
+				// reply): observed, shown in the outcome, not judged
+				parts = append(parts, rq+":jukebox-without-overlapping-update")
 			}
 		}
 		if rp.err != "" && !strings.Contains(rp.err, "timed out") {
